@@ -51,7 +51,7 @@ VALUES = {
     "memoryview": [memoryview(b"ab")],
     "type": [int, str],
     "dict_str_int": [{}, {"a": 1}, {"a": 1, "b": 2}, {"b": 2, "a": 1}],
-    "fs_name": ["exists.txt", "missing.txt", "dir", "dir/inner.txt"],
+    "fs_name": ["exists.txt", "missing.txt", "dir", "dir/inner.txt", "link.txt", "dangling.txt", "/"],
     "fs_existing": ["exists.txt", "dir/inner.txt"],
     "fs_path": [Path("a.txt"), Path("b.TXT"), Path("dir/c.txt"), Path(".txt"), Path("x.tar.txt")],
     "fs_path_txt": [Path("a.txt"), Path("dir/c.txt"), Path("x.tar.txt")],
@@ -295,12 +295,30 @@ def observe(fn, args: dict, rule: Rule, scratch: Path | None):
         (scratch / "dir").mkdir(parents=True)
         (scratch / "exists.txt").write_text("data\n")
         (scratch / "dir" / "inner.txt").write_text("inner\n")
+        # access, modification and change times all differ, so that advice naming the wrong stat field shows
+        os.utime(scratch / "exists.txt", (1_000_000_000, 1_100_000_000))
+        os.utime(scratch / "dir" / "inner.txt", (1_200_000_000, 1_300_000_000))
+        os.symlink("exists.txt", scratch / "link.txt")
+        os.symlink("missing.txt", scratch / "dangling.txt")
         os.chdir(scratch)
     try:
         with contextlib.redirect_stdout(out):
             try:
                 r = fn(**a)
                 res = ("ok", canon(r))
+                if scratch is not None and isinstance(r, (float, os.stat_result)):
+                    # the change time cannot be set: it is named instead (which file's, followed or not), the other fields are fixed above
+                    names = {}
+                    for q in sorted(scratch.rglob("*")) + [scratch]:
+                        for follow in (True, False):
+                            try:
+                                names.setdefault(os.stat(q, follow_symlinks=follow).st_ctime, f"<change time of {q.relative_to(scratch)}{'' if follow else ' itself'}>")
+                            except OSError:
+                                pass
+                    if isinstance(r, float) and r in names:
+                        res = ("ok", ("float", names[r]))
+                    elif isinstance(r, os.stat_result):
+                        res = ("ok", ("stat_result", (r.st_mode, r.st_size, r.st_atime, r.st_mtime, names.get(r.st_ctime, r.st_ctime))))
                 observe.raw = ("ok", r)
                 observe.raw_args = a
                 alias = [k for k, v in a.items() if v is r and isinstance(v, (list, dict, set, bytearray))]
@@ -544,7 +562,8 @@ _COMPOUND_EXTRA = {
 }
 
 
-MATCHED_CHECKS = (110, 114, 136, 171, 149)
+MATCHED_CHECKS = (110, 114, 136, 171, 149)          # translated together (GenMatch.v), statements in C01Match.v
+LIBRARY_CHECKS = (104, 141, 144, 146, 155, 163)      # translated one file each (GenLib<code>.v), statements in C01Lib<code>.v
 COMPOUND_INFO: dict[int, tuple] = {}
 
 
@@ -899,16 +918,35 @@ def matcher_tie(ctx: Ctx, matched: dict, all_rules: list, built: bool) -> None:
                 if rng.random() < 0.25 and shape not in seen:
                     seen.add(shape)
                     srcs.append(shape)
+    # the library idioms among the translated checks: every function of their tables (and neighbours) through every import spelling,
+    # applied to arguments of each type the guards ask about, with other argument counts, and every kind of logarithm base
+    lib = []
+    for fn_ in ("os.path.isabs", "os.path.isdir", "os.path.isfile", "os.path.islink", "os.path.exists", "os.path.lexists", "os.path.getsize", "os.path.getatime",
+                "os.path.getmtime", "os.path.getctime", "os.stat", "os.lstat", "os.remove", "os.unlink", "os.rmdir", "os.getcwd", "os.getcwdb", "os.path.ismount",
+                "ospath.isfile", "ospath.getmtime", "posixpath.isdir", "pp2.exists", "o2.path.getctime", "o2.remove", "o2.getcwd", "isfile_", "getsize_", "exists_", "unlink_", "getcwd_", "stat_"):
+        for arg_ in ("p_", "s", "bs_", "n", "'f.txt'", "b'f'", "Path('f')", "obj", "str(p_)", "p_ / s"):
+            if rng.random() < (0.6 if ctx.tier != "thorough" else 1.0):
+                lib.append(f"{fn_}({arg_})")
+        lib += [f"{fn_}()", f"{fn_}(s, s)", f"{fn_}(p_, s)"]
+    for lg in ("math.log", "mlog_", "m2.log", "math.log2", "math.log10", "math.log1p"):
+        for base_ in ("2", "10", "2.0", "10.0", "2.5", "10.5", "3", "0b10", "0xA", "1e1", "2e0", "2.00", "20", "-2", "True", "math.e", "me_", "m2.e", "math.pi", "n", "a", "2j", "'2'"):
+            lib.append(f"{lg}(a, {base_})")
+        lib += [f"{lg}(a)", f"{lg}(a, 2, 3)", f"{lg}(2, a)"]
+    srcs += [x for x in lib if x not in seen]
     files, per = {}, 400
     for fi in range(0, len(srcs), per):
-        lines = [G.PRELUDE, "w = 0", "flag: bool = True", "async def _w() -> None:"]
+        lines = [G.PRELUDE, "import math\nimport math as m2\nfrom math import log as mlog_, e as me_\nfrom pathlib import Path\nfrom os.path import isfile as isfile_, getsize as getsize_, exists as exists_\n"
+                 "from os import unlink as unlink_, getcwd as getcwd_, stat as stat_\np_: Path = Path()\nbs_: bytes = b''",
+                 "w = 0", "flag: bool = True", "async def _w() -> None:"]
         for j, s0 in enumerate(srcs[fi:fi + per]):
             lines.append(f"    P_{fi + j} = {s0}")
         files[f"m{fi // per}.py"] = "\n".join(lines) + "\n"
     found, errs, td = TC.harvest(files)
     try:
         loose = (N.ConditionalExpr, N.LambdaExpr, N.AwaitExpr, N.AssignmentExpr)
-        kinds = {110: N.ConditionalExpr, 136: N.ConditionalExpr, 114: N.UnaryExpr, 171: N.ComparisonExpr, 149: N.ComparisonExpr}
+        kinds = {110: N.ConditionalExpr, 136: N.ConditionalExpr, 114: N.UnaryExpr, 171: N.ComparisonExpr, 149: N.ComparisonExpr,
+                 104: N.CallExpr, 141: N.CallExpr, 144: N.CallExpr, 146: N.CallExpr, 155: N.CallExpr, 163: N.CallExpr}
+        pytypes = {"bool": bool, "str": str, "bytes": bytes, "pathlib.Path": "pathlib.Path"}
         from refurb.checks.common import get_mypy_type, is_same_type, stringify
         mods = {code: importlib.import_module(info["module"]) for code, info in matched.items()}
         rows = []
@@ -935,26 +973,27 @@ def matcher_tie(ctx: Ctx, matched: dict, all_rules: list, built: bool) -> None:
                     except Exception as ex:  # noqa: BLE001
                         real = [f"<{type(ex).__name__}>"]
                     oracle = []
-                    if code == 149:          # what the type guard answers for the operands, keyed by their text
-                        for op_ in getattr(node, "operands", []):
-                            try:
-                                if is_same_type(get_mypy_type(op_), bool):
-                                    oracle.append(stringify(op_))
-                            except Exception:  # noqa: BLE001
-                                pass
+                    if matched[code].get("typed"):          # what the type guard answers for the operands / arguments, keyed by their text
+                        for op_ in list(getattr(node, "operands", [])) + list(getattr(node, "args", [])):
+                            for tn in matched[code].get("type_names", []):
+                                try:
+                                    if is_same_type(get_mypy_type(op_), pytypes[tn]):
+                                        oracle.append((stringify(op_), tn))
+                                except Exception:  # noqa: BLE001
+                                    pass
                     rows.append((code, node, real, oracle))
                     ctx.case(("matcher", code, srcs[int(pname[2:])][:80], node.line, node.column), nontrivial=bool(real),
                              sample={"check": f"FURB{code}", "messages": real} if real and rng.random() < 0.02 else None)
                     ctx.count(f"matcher:FURB{code}:{'reports' if real else 'silent'}")
         if built and rows:
-            hdr = ("From Lib Require Import Base PyAst Equiv Stringify PyMatch.\nFrom P Require Import GenEquiv GenMatch.\nOpen Scope list_scope.\nSet Printing Width 100000.\n"
+            hdr = ("From Lib Require Import Base PyAst Equiv Stringify PyMatch.\nFrom P Require Import " + " ".join(sorted({i["file"] for i in matched.values()})) + ".\nOpen Scope list_scope.\nSet Printing Width 100000.\n"
                    "Definition same (a b : list string) := list_eqb String.eqb a b.\n"
-                   "Definition ty (bools : list string) (e : expr) (t : string) : bool := String.eqb t \"bool\" && existsb (String.eqb (stringify e)) bools.\n")
+                   "Definition ty (known : list (string * string)) (e : expr) (t : string) : bool := existsb (fun p => String.eqb (fst p) (stringify e) && String.eqb (snd p) t) known.\n")
             shards, metas = [], []
             for i in range(0, len(rows), 300):
                 chunk = rows[i:i + 300]
                 body = "Definition cs : list (list string * list string) := [\n" + ";\n".join(
-                    f"(map render (check_{code} {'(ty ' + coq.coq_list([coq.coq_str(x) for x in oracle]) + ') ' if code == 149 else ''}{TC.expr(node)}), {coq.coq_list([coq.coq_str(m) for m in real])})" for code, node, real, oracle in chunk) + "].\n" \
+                    f"(map render (check_{code} {'(ty ' + coq.coq_list(['(' + coq.coq_str(x) + ', ' + coq.coq_str(t_) + ')' for x, t_ in oracle]) + ') ' if matched[code].get('typed') else ''}{TC.expr(node)}), {coq.coq_list([coq.coq_str(m) for m in real])})" for code, node, real, oracle in chunk) + "].\n" \
                     "Eval vm_compute in (fix go i l := match l with [] => [] | (m, r) :: t => if same m r then go (S i) t else i :: go (S i) t end) 0 cs.\n"
                 shards.append(body)
                 metas.append(chunk)
@@ -968,7 +1007,7 @@ def matcher_tie(ctx: Ctx, matched: dict, all_rules: list, built: bool) -> None:
                 for i in [int(x) for x in vals[0].strip("[]").split(";") if x.strip()][:4]:
                     code, node, real, _ = chunk[i]
                     mism.append(f"FURB{code} on `{str(node)[:60]}` line {node.line}: real {real}")
-            ctx.obligation("correspondence: translated check() of FURB110/114/136/149/171 (GenMatch.v, rendered with Lib/Stringify.v) = the real check functions on every harvested node",
+            ctx.obligation("correspondence: translated check() of FURB" + "/".join(map(str, sorted(matched))) + " (GenMatch.v, rendered with Lib/Stringify.v) = the real check functions on every harvested node",
                            not mism, "; ".join(mism[:5]))
             ctx.extra["matcher_tie_nodes"] = len(rows)
     finally:
@@ -1005,13 +1044,16 @@ def run(ctx: Ctx) -> None:
         from ..translate.equiv import translate as translate_equiv
         from ..translate.matchers import translate_check
         cat = {c["code"]: c for c in catalogue(REPO) if c["prefix"] == "FURB"}
-        parts = ["(* generated from refurb/checks: check() of FURB110, 114, 136, 149, 171 as matchers over PyAst with message templates *)",
+        parts = ["(* generated from refurb/checks: check() of FURB" + ", ".join(map(str, sorted(MATCHED_CHECKS))) + " as matchers over PyAst with message templates *)",
                  "From Lib Require Import Base PyAst Equiv Stringify PyMatch.", "From P Require Import GenEquiv.", "Open Scope list_scope.", "",
                  "Section Checks.", "  (* what refurb's type resolution answers for an operand: is_same_type(get_mypy_type(e), T) *)",
                  "  Variable type_is : expr -> string -> bool.", ""]
         for code in MATCHED_CHECKS:
-            info = cat[code]
-            parts.append(translate_check(Path(info["path"]), code, info["msg"]))
+            info = dict(cat[code])
+            text = translate_check(Path(info["path"]), code, info["msg"], REPO, info)
+            info["typed"] = "type_is " in text
+            info["file"] = "GenMatch"
+            parts.append(text)
             matched[code] = info
         parts.append("End Checks.")
         gen["GenEquiv"] = translate_equiv(REPO)
@@ -1022,7 +1064,25 @@ def run(ctx: Ctx) -> None:
         matched = {}
         for k in ("GenEquiv", "C06Proofs", "GenMatch"):
             gen.pop(k, None)
-        ctx.obligation("translate check() of FURB110/114/136/149/171 (matchers with message templates)", False, f"{type(e).__name__}: {e}")
+        ctx.obligation("translate check() of FURB" + "/".join(map(str, sorted(MATCHED_CHECKS))) + " (matchers with message templates)", False, f"{type(e).__name__}: {e}")
+    # the library idioms: one generated file and one statement file per check, so that a check that stops translating
+    # leaves the others proved
+    order.append("C01LibSpec")
+    for code in LIBRARY_CHECKS:
+        try:
+            from ..translate.catalogue import catalogue
+            from ..translate.matchers import translate_check
+            info = dict(next(c for c in catalogue(REPO) if c["prefix"] == "FURB" and c["code"] == code))
+            text = translate_check(Path(info["path"]), code, info["msg"], REPO, info)
+            info["typed"] = "type_is " in text
+            info["file"] = f"GenLib{code}"
+            gen[f"GenLib{code}"] = "\n".join([f"(* generated from {Path(info['path']).relative_to(REPO)}: check() of FURB{code} as a matcher over PyAst with message templates *)",
+                                              "From Coq Require Import ZArith.", "From Lib Require Import Base PyAst Equiv Stringify PyMatch.", "Open Scope list_scope.", "",
+                                              "Section Check.", "  Variable type_is : expr -> string -> bool.", "", text, "End Check.", ""])
+            order += [f"GenLib{code}", f"C01Lib{code}"]
+            matched[code] = info
+        except Exception as e:  # noqa: BLE001
+            ctx.obligation(f"translate check() of FURB{code} (matcher with message templates)", False, f"{type(e).__name__}: {e}")
     b = coq.compile_props(ctx, gen, order)
     coq.record_build(ctx, b)
     from refurb.main import run_refurb
@@ -1285,7 +1345,18 @@ def run(ctx: Ctx) -> None:
                                                       if (r.code, r.lhs) in MODEL_RULES and set(r.params.values()) <= MODEL_TYPES)
         model_tie(ctx, derived)
         heap_tie(ctx, derived)
-        matcher_tie(ctx, matched, ALL, b.files.get("GenMatch", {}).get("rc") == 0)
+        matcher_tie(ctx, {c: i for c, i in matched.items() if b.files.get(i["file"], {}).get("rc") == 0}, ALL, True)
     finally:
         shutil.rmtree(td, ignore_errors=True)
-    ctx.resolve_broken({"furb123_table_sound": "semantics:FURB123", "furb123_table_keys_unique": "semantics:FURB123", "translate FUNC_NAME_MAPPING (FURB123)": "semantics:FURB123"}, b.first_error)
+    explained = {"furb123_table_sound": "semantics:FURB123", "furb123_table_keys_unique": "semantics:FURB123", "translate FUNC_NAME_MAPPING (FURB123)": "semantics:FURB123"}
+    # a translated check that no longer translates, or whose statement no longer checks, is explained by an input on which that check's advice now fails
+    legacy = tuple(f"semantics:FURB{c}:" for c in MATCHED_CHECKS) + tuple(f"invalid-python:FURB{c}" for c in MATCHED_CHECKS)
+    explained["translate check() of FURB" + "/".join(map(str, sorted(MATCHED_CHECKS))) + " (matchers with message templates)"] = legacy
+    for o in ctx.obligations:
+        m_ = re.search(r"check_(\d+)_|translate check\(\) of FURB(\d+) \(matcher with", o["name"])
+        if m_:
+            c_ = m_.group(1) or m_.group(2)
+            explained[o["name"]] = (f"semantics:FURB{c_}:", f"invalid-python:FURB{c_}")
+    explained["log_advice_only_for_its_own_base"] = ("semantics:FURB163:", "invalid-python:FURB163")
+    explained["stat_advice_names_the_matching_field"] = ("semantics:FURB155:", "invalid-python:FURB155")
+    ctx.resolve_broken(explained, b.first_error)
